@@ -474,6 +474,42 @@ func checkResponseTable(c *Ctx, parse *ssa.Function, cmdOf map[string]string) {
 		R.Fail("C03.txn", "rtmp|register", "?", "no function registers requests in Protocol.input.transactions", nil)
 		return
 	}
+	// the key used to register and to match is the transaction id itself: no conversion that can map two ids onto one
+	// (a float64 id cut to an integer would match 2.5 with 2, or wrap)
+	nKeys := 0
+	lossy := ""
+	for _, fn := range P.ModuleFuncs("rtmp") {
+		core.EachInstr(fn, func(in ssa.Instruction) {
+			var m, k ssa.Value
+			switch x := in.(type) {
+			case *ssa.MapUpdate:
+				m, k = x.Map, x.Key
+			case *ssa.Lookup:
+				m, k = x.X, x.Index
+			case *ssa.Call:
+				if b, ok := x.Call.Value.(*ssa.Builtin); ok && b.Name() == "delete" {
+					m, k = x.Call.Args[0], x.Call.Args[1]
+				}
+			}
+			if m == nil || !strings.HasSuffix(core.TypedPath(m), "input.transactions") {
+				return
+			}
+			nKeys++
+			for v, d := k, 0; d < 6; d++ {
+				switch y := v.(type) {
+				case *ssa.ChangeType:
+					v = y.X
+					continue
+				case *ssa.Convert:
+					lossy = fmt.Sprintf("%s at %s converts the id from %s to %s", core.QualName(fn), P.InstrPos(in), y.X.Type(), y.Type())
+				}
+				break
+			}
+		})
+	}
+	R.Check(lossy == "" && nKeys >= 3, "C03.txn", "rtmp|transaction-key|is-the-id-itself", P.Pos(reg.Pos()),
+		fmt.Sprintf("requests are registered and responses matched (%d key uses) under the transaction id itself", nKeys),
+		"the transaction table is keyed by a converted id ("+lossy+"): two different ids can match one request, so a response is typed by a request it does not answer", nil)
 	var regTypes []*types.Named
 	for _, s := range P.Switches(reg) {
 		if !s.IsType {
